@@ -42,6 +42,8 @@ func c10Types() []ref.Item {
 		{ref.Struct(ref.Fld(1, pint), ref.Fld(2, ref.Slice(L(ref.KInt)))), ""},
 		{ref.Slice(ref.Struct(ref.Fld(1, pint), ref.Fld(2, ref.Slice(L(ref.KInt))))), ""},
 		{L(ref.KNullString), "intern"}, {ref.Ptr(L(ref.KString)), ""},
+		// two byte-slice fields and a string: targets whose byte slices are windows on one buffer
+		{ref.Struct(ref.Fld(1, L(ref.KBytes)), ref.Fld(2, L(ref.KBytes)), ref.Fld(3, L(ref.KString))), ""},
 	}
 	// every map shape also in the protobuf map form (another reader with its own scratch handling)
 	for _, b := range bases {
@@ -127,6 +129,48 @@ func truncateSlices(rv reflect.Value) bool {
 	return changed
 }
 
+// windowBytes re-points every non-empty []byte reachable through struct fields and pointers at
+// consecutive windows of ONE buffer, each window's capacity running on over the later windows
+// (what a zero-copy parser leaves behind: key := line[:2]; value := line[3:]).
+func windowBytes(rv reflect.Value) bool {
+	var all []reflect.Value
+	var walk func(v reflect.Value)
+	walk = func(v reflect.Value) {
+		switch v.Kind() {
+		case reflect.Slice:
+			if v.Type().Elem().Kind() == reflect.Uint8 && v.Len() > 0 {
+				all = append(all, v)
+			}
+		case reflect.Ptr:
+			if !v.IsNil() {
+				walk(v.Elem())
+			}
+		case reflect.Struct:
+			for i := 0; i < v.NumField(); i++ {
+				if v.Type().Field(i).IsExported() {
+					walk(v.Field(i))
+				}
+			}
+		}
+	}
+	walk(rv)
+	if len(all) < 2 {
+		return false
+	}
+	total := 0
+	for _, v := range all {
+		total += v.Len() + 1
+	}
+	buf := make([]byte, total+256)
+	off := 0
+	for _, v := range all {
+		n := copy(buf[off:], v.Bytes())
+		v.SetBytes(buf[off : off+n : len(buf)])
+		off += n // adjacent windows: growing one by a single byte runs into the next
+	}
+	return true
+}
+
 func c10Work(c *mc.Ctx) {
 	probe := sched.Run([]func(){func() { NewPlenc(ref.Cfg{}).CodecForType(reflect.TypeOf(0)) }}, nil, false)
 	if len(probe.Points) < 1 {
@@ -149,7 +193,8 @@ func c10Work(c *mc.Ctx) {
 				max = 40
 			}
 			if len(full) > max {
-				full = full[:max]
+				// the simplest values come first, the richest (several non-default fields at once) last: keep both ends
+				full = append(full[:max-max/3:max-max/3], full[len(full)-max/3:]...)
 			}
 			type plan struct {
 				depth  int
@@ -172,9 +217,9 @@ func c10Work(c *mc.Ctx) {
 						c.Note("stopped before " + it.T.String())
 						return
 					}
-					for alias := 0; alias < 3; alias++ {
+					for alias := 0; alias < 4; alias++ {
 						if !c.Begin(fmt.Sprintf(`{"cfg":%q,"type":%q,"opt":%q,"depth":%d,"prior_index":%d,"prior":%q,"prior_variant":%q,"values":%d}`,
-							cfg, it.T, it.Opt, pl.depth, pi, ref.Str(it.T, p0), []string{"as built", "aliased pointers", "slices truncated keeping stale capacity"}[alias], len(pl.vals))) {
+							cfg, it.T, it.Opt, pl.depth, pi, ref.Str(it.T, p0), []string{"as built", "aliased pointers", "slices truncated keeping stale capacity", "byte slices windowed on one buffer"}[alias], len(pl.vals))) {
 							continue
 						}
 						c.AddEvals(-1)
@@ -216,7 +261,7 @@ func c10Run(c *mc.Ctx, pre string, cfg ref.Cfg, it ref.Item, p0 ref.V, alias int
 		}
 	}
 	var nontrivial bool
-	var aliased, skipped, truncated bool
+	var aliased, skipped, truncated, windowed bool
 	body := func() {
 		p := NewPlenc(cfg)
 		target := reflect.New(t.Reflect())
@@ -234,6 +279,13 @@ func c10Run(c *mc.Ctx, pre string, cfg ref.Cfg, it ref.Item, p0 ref.V, alias int
 				return
 			}
 			truncated = true
+		}
+		if alias == 3 {
+			if !windowBytes(target.Elem()) {
+				skipped = true
+				return
+			}
+			windowed = true
 		}
 		prior := ref.FromReflect(t, target.Elem())
 		for step, v := range hist {
@@ -329,6 +381,9 @@ func c10Run(c *mc.Ctx, pre string, cfg ref.Cfg, it ref.Item, p0 ref.V, alias int
 	}
 	if truncated {
 		c.Dim("stale-capacity-prior")
+	}
+	if windowed {
+		c.Dim("windowed-bytes-prior")
 	}
 	hs := make([]string, len(hist))
 	for i, v := range hist {
